@@ -140,6 +140,7 @@ mutual
     | .rep _ body => closedOps body
     | .forr _ _ body => closedOps body
     | .axisRot _ body => closedOps body
+    | .attempt body => closedOps body
     | _ => true
   def closedOps : List Op → Bool
     | [] => true
@@ -367,6 +368,10 @@ mutual
     | .remove p t => simp only [execOp, removeOp_sh]; exact h
     | .farcallList items => simp only [execOp]; exact farcallListOp_sh cfg items cs h
     | .raise => simp [execOp, h]
+    | .attempt body =>
+      simp only [execOp]
+      exact execOps_sh cfg body cs (by simpa [closedOp] using hc) h
+    | .loadBad p => simp [execOp, h]
   private theorem execOps_sh (cfg : Cfg) (ops : List Op) (cs : CS) (hc : closedOps ops = true) (h : cs.shutterOn = false) :
       (execOps cfg ops cs).cs.shutterOn = false := by
     match ops with
@@ -542,6 +547,13 @@ example : structure? (flattenStmts (session { header := Femto.Gen.header_uwe, ae
       [.dvar ["k"], .axisRot (some 12) [.rep 3 [.forr "K" 2 [.dwell (some 1), .raise, .goInit]]], .goOrigin]).1)
     = some (session { header := Femto.Gen.header_uwe, aeroAngle := 30 }
       [.dvar ["k"], .axisRot (some 12) [.rep 3 [.forr "K" 2 [.dwell (some 1), .raise, .goInit]]], .goOrigin]).1 :=
+  session_balanced _ _ (by decide)
+
+/-- non-vacuity with the user's own try / except: a loop whose body raises, swallowed, and the program goes on -/
+example : structure? (flattenStmts (session { header := Femto.Gen.header_uwe }
+      [.attempt [.rep 3 [.dwell (some 1), .raise]], .loadBad "a.pgm", .goOrigin]).1)
+    = some (session { header := Femto.Gen.header_uwe }
+      [.attempt [.rep 3 [.dwell (some 1), .raise]], .loadBad "a.pgm", .goOrigin]).1 :=
   session_balanced _ _ (by decide)
 
 end Femto.C03
